@@ -12,3 +12,10 @@ pub fn evaluate(input: &Tree) -> Result<Tree, String> {
         Err(e) => err("evaluate", &format!("{e:#}")),
     })
 }
+
+pub fn dispatch(op: &str, input: &Tree) -> Option<Result<Tree, String>> {
+    match op {
+        "evaluate" => Some(evaluate(input)),
+        _ => None,
+    }
+}
